@@ -352,6 +352,9 @@ def atom_of(n: ast.AST):
         op, r, l = n.ops[0], n.comparators[0], n.left
         if isinstance(op, (ast.Is, ast.IsNot)):
             pol = isinstance(op, ast.Is)
+            if isinstance(r, ast.Constant) and isinstance(l, ast.Constant) and (r.value is None or l.value is None):
+                # a constant compared with None by identity is decided here (a local known to hold None)
+                return ('const', ((l.value is None) == (r.value is None)) == pol), True
             if isinstance(r, ast.Constant) and r.value is None:
                 return ('none', term(l)), pol
             if isinstance(l, ast.Constant) and l.value is None:
